@@ -46,8 +46,9 @@ func (om *options) try(args []string, c *ParseContext) (bool, []string) {
 		if _, exclude := c.ExcludedOpts[o]; exclude {
 			continue
 		}
+		before := len(c.Opts[o])
 		if ok, nargs := (&opt{theOne: o, index: om.index}).Match(args, c); ok {
-			if o.ValueSetFromEnv {
+			if o.ValueSetFromEnv && len(c.Opts[o]) == before {
 				c.ExcludedOpts[o] = struct{}{}
 			}
 			return true, nargs
